@@ -2123,7 +2123,12 @@ def read_lines(path_or_source, *, include=False, include_dirs=None):
     current_dirs.append(base_path)
 
     lines = []
-    for i, raw_line in enumerate(source.splitlines(), start=1):
+    # lines end at newline characters only: str.splitlines() would also break a line at
+    # form feeds, NEL, LINE SEPARATOR and the like, which are ordinary text in a string
+    raw_lines = re.split(r'\r\n|\r|\n', source)
+    if raw_lines[-1] == '':
+        raw_lines.pop()
+    for i, raw_line in enumerate(raw_lines, start=1):
         # skip empty lines
         if len(raw_line.strip()) == 0:
             continue
